@@ -4,7 +4,7 @@
 
 // ===================================================================================================
 // property checks; each returns PASS/FAIL/DISCARD for one case
-enum PropId { C01, C02, C05, C08, C09, C10, C11, C16 };
+enum PropId { C01, C02, C05, C08, C09, C10, C11, C16, C04G };
 
 template<class TT>
 static Verdict check_case(PropId prop, const GCase& c, Stats& st)
@@ -12,6 +12,10 @@ static Verdict check_case(PropId prop, const GCase& c, Stats& st)
     using R = Runner<TT>;
     const Grammar& g = c.g;
     if (g.rules.empty()) return Verdict::discard("empty-grammar");
+    // C04g: C04's last clause ("if no term matches ... the parse fails with an 'Unexpected character' report instead of skipping") in every parser
+    // mode, in particular while error recovery is discarding terms: the recovery oracle of C08 restricted to inputs with an unmatchable byte
+    const bool only_lexical = prop == C04G;
+    if (only_lexical) prop = C08;
     bool uses_err = g.uses_error();
     if (uses_err && (prop == C01 || prop == C09 || prop == C05)) return Verdict::discard("uses-error");
     if (!uses_err && prop == C08) return Verdict::discard("no-error-rule");
@@ -252,6 +256,7 @@ static Verdict check_case(PropId prop, const GCase& c, Stats& st)
         Expect e = expect_for(pr, in, false);
         if (e.rr.hit_rr || e.rr.looped) continue;
         if (prop == C01 || prop == C02 || prop == C05) { if (e.L.lex_error) continue; }
+        if (only_lexical && !e.L.lex_error) continue;
         if (!uses_err && !e.L.lex_error && e.L.toks.size() <= 160)      // Earley is cubic: the second opinion is for the short inputs
         {
             std::vector<int> tt; for (auto& t : e.L.toks) tt.push_back(t.term);
@@ -265,7 +270,7 @@ static Verdict check_case(PropId prop, const GCase& c, Stats& st)
             }
             if (dis) { ++disagreements; continue; }
         }
-        auto fail = [&](const std::string& what, vj::Value det) { return Verdict::fail(what, det); };
+        auto fail = [&](const std::string& what, vj::Value det) { return Verdict::fail(only_lexical ? "input with a byte that no term matches: " + what : what, det); };
 
         if (prop == C01)
         {
@@ -387,9 +392,9 @@ static Verdict check_case(PropId prop, const GCase& c, Stats& st)
                             if (ai[a] >= 0)
                             {
                                 const auto& tk = e.L.toks[size_t(ai[a])];
-                                if (int(oc.args[a].line) != tk.line || int(oc.args[a].col) != tk.col)
+                                if (int(oc.args[a].line) != tk.line || int(oc.args[a].col) != tk.col || int(oc.args[a].sp_line) != tk.line || int(oc.args[a].sp_col) != tk.col)
                                 {
-                                    auto d = fail_detail(k, in); d.set("token", ai[a]); d.set("expected_line", tk.line); d.set("expected_col", tk.col); d.set("observed_line", (unsigned long long)oc.args[a].line); d.set("observed_col", (unsigned long long)oc.args[a].col);
+                                    auto d = fail_detail(k, in); d.set("token", ai[a]); d.set("expected_line", tk.line); d.set("expected_col", tk.col); d.set("observed_line", (unsigned long long)oc.args[a].line); d.set("observed_col", (unsigned long long)oc.args[a].col); d.set("observed_get_sp_line", (unsigned long long)oc.args[a].sp_line); d.set("observed_get_sp_col", (unsigned long long)oc.args[a].sp_col);
                                     return fail("term value carries a wrong source point", d);
                                 }
                             }
@@ -401,7 +406,8 @@ static Verdict check_case(PropId prop, const GCase& c, Stats& st)
             }
             if (o.has) ++acc; else ++rej;
             if (prop == C09 && !o.has && (e.rr.error_token > 0 || e.rr.lex_error_reached)) { ++interesting; if (e.rr.error_token == int(e.L.toks.size())) case_labels.push_back("error-at-eof"); if (e.rr.lex_error_reached) case_labels.push_back("lexical-error"); }
-            if (prop == C08 && !e.rr.error_tokens.empty())
+            if (only_lexical) { if (e.rr.lex_error_reached) { ++interesting; case_labels.push_back(e.rr.error_tokens.empty() ? "no-match-in-normal-mode" : "no-match-while-recovering"); } }
+            else if (prop == C08 && !e.rr.error_tokens.empty())
             {
                 ++interesting;
                 if (e.rr.recovered) case_labels.push_back(o.has ? "recovered-success" : "recovered-then-failed");
@@ -536,7 +542,7 @@ struct GP
     using Case = GCase;
     static const char* id()
     {
-        switch (PROP) { case C01: return "C01"; case C02: return "C02"; case C05: return "C05"; case C08: return "C08"; case C09: return "C09"; case C10: return "C10"; case C11: return "C11"; default: return "C16"; }
+        switch (PROP) { case C01: return "C01"; case C02: return "C02"; case C05: return "C05"; case C08: return "C08"; case C09: return "C09"; case C10: return "C10"; case C11: return "C11"; case C04G: return "C04g"; default: return "C16"; }
     }
     static Case gen(Choice& ch)
     {
@@ -549,6 +555,15 @@ struct GP
         case C09: return gen_case(ch, gg::CONFLICT_FREE, 8, true, true);
         case C10: return gen_case(ch, ch.chance(1, 2) ? gg::RECOVERY : gg::CONFLICT_FREE, 12, true, true);   // positions after recovery-skipped terms too
         case C11: return gen_case(ch, gg::ANY, 4, false, false);
+        case C04G:
+        {
+            GCase c = gen_case(ch, gg::RECOVERY, 14, true, true);
+            // many more unmatchable bytes, at every position (also behind the point where recovery started)
+            eng::Rng rng = ch.fork(); static const char bad[] = {'z', '!', '\x80', '\0', '\xff', 'A', '#'};
+            size_t n = c.inputs.size();
+            for (size_t i = 0; i < n; ++i) if (c.inputs[i].text.size() >= 2 && c.inputs[i].text.size() < 300 && rng.chance(1, 3)) { gg::Input in = c.inputs[i]; in.text.insert(in.text.begin() + rng.below(uint32_t(in.text.size() + 1)), bad[rng.below(7)]); c.inputs.push_back(in); }
+            return c;
+        }
         default:  return gen_case(ch, gg::ANY, 8, true, true);
         }
     }
@@ -986,7 +1001,7 @@ static int emit_cases(const eng::Args& a)
         }
         if (nacc == 0 || nrej == 0) return;
         vj::Value o = vj::Value::object(); o.set("grammar", ref::to_json(g)); o.set("strategy", c.strategy); o.set("class", cls == 0 ? "conflict-free" : cls == 1 ? "precedence" : "recovery"); o.set("inputs", ins);
-        o.set("lr1_states", (unsigned long long)pr.table.states.size());
+        o.set("lr1_states", (unsigned long long)pr.table.states.size()); o.set("has_sr", pr.table.has_sr);
         if (spelled)
         {
             vj::Value sp = vj::Value::array();
@@ -1018,6 +1033,7 @@ int main(int argc, char** argv)
         else if (a.prop == "C10") rc = eng::run_property<GP<C10>>(a);
         else if (a.prop == "C11") rc = eng::run_property<GP<C11>>(a);
         else if (a.prop == "C16") rc = eng::run_property<GP<C16>>(a);
+        else if (a.prop == "C04g") rc = eng::run_property<GP<C04G>>(a);
         else { fprintf(stderr, "unknown --prop %s\n", a.prop.c_str()); rc = 2; }
     });
     return rc;
